@@ -346,6 +346,16 @@ func (c *checkSchema) collectAllowedJsonTypes(node schema.Node, ss map[string]sc
 	typesConstraint := node.Constraint(constraint.TypesListConstraintType)
 
 	if typesConstraint == nil {
+		if node.Constraint(constraint.EnumConstraintType) != nil || node.Constraint(constraint.AnyConstraintType) != nil {
+			// The values of this node are not bound to the json-type of its EXAMPLE
+			// (an enum may list values of several json-types, "any" admits all of
+			// them): the EXAMPLE of the referring node is compared with the values
+			// themselves in checkLiteralNode.
+			for _, t := range json.AllTypes {
+				c.allowedJsonTypes[t] = struct{}{}
+			}
+			return
+		}
 		c.allowedJsonTypes[node.Type()] = struct{}{}
 		return
 	}
